@@ -153,6 +153,31 @@ func c01DiagImpliesError(c *Ctx, entry *ssa.Function, ro *ParserRoles) {
 				}
 			}
 		}
+		// ... or the error travels through locals first: on every path from the true edge to the end of the deferred
+		// function the last store into the error result holds a value known to be non-nil
+		if !ok {
+			k := 0
+			if t == b.Succs[1] {
+				k = 1
+			}
+			isErrCell := func(v ssa.Value) bool {
+				fv, isFV := v.(*ssa.FreeVar)
+				if !isFV {
+					return false
+				}
+				pt, isP := fv.Type().(*types.Pointer)
+				return isP && pt.Elem().String() == "error"
+			}
+			ok = c.walkEdge(b, k, nil, nil, func(in ssa.Instruction, nn func(ssa.Value) int, st int) int {
+				if s, isSt := in.(*ssa.Store); isSt && isErrCell(s.Addr) {
+					if nn(s.Val) == nnNonNil {
+						return 1
+					}
+					return 0
+				}
+				return st
+			}, func(ret *ssa.Return, nn func(ssa.Value) int, st int) bool { return st == 1 })
+		}
 	})
 	c.R.Check(rule, "diagnostics-become-error", c.P.Pos(g.Pos()), ok, "when the returned source carries diagnostics the deferred function must store a non-nil error: a tree must never be returned with a nil error after a diagnostic was recorded")
 	// the test must not be skipped on any path of the deferred function other than source == nil
@@ -740,6 +765,7 @@ func (c *Ctx) neverNil(f *ssa.Function, idx int, assume map[nnKey]bool, ro *Pars
 			if !ok {
 				break
 			}
+			rt, _ = c.inductiveOperand(rt)
 			switch {
 			case rt.Kind == "alloc" && len(rt.Path) == 0:
 			case rt.Kind == "call" && len(rt.Path) == 0 && nonNilAt(rt.V, in):
@@ -779,12 +805,37 @@ func (c *Ctx) neverNil(f *ssa.Function, idx int, assume map[nnKey]bool, ro *Pars
 	return ok, why
 }
 
+// inductiveOperand: rt is a load of a required operand field (X.Expression, X.Left, ...) of a node. C01.never-nil
+// itself establishes that every allocation stores a non-nil value into each such field, so - by induction over the
+// finished nodes - the loaded operand is non-nil whenever its holder is; what remains to be shown is the holder.
+func (c *Ctx) inductiveOperand(rt Root) (Root, bool) {
+	if len(rt.Path) != 1 || rt.V == nil {
+		return rt, false
+	}
+	t := rt.V.Type()
+	if tup, ok := t.(*types.Tuple); ok && rt.Idx < tup.Len() {
+		t = tup.At(rt.Idx).Type()
+	}
+	nt := namedOf(deref(t))
+	if nt == nil {
+		return rt, false
+	}
+	for _, f := range c.requiredFields(nt) {
+		if f == rt.Path[0] {
+			rt.Path = nil
+			return rt, true
+		}
+	}
+	return rt, false
+}
+
 func (c *Ctx) valueNeverNil(v ssa.Value, use ssa.Instruction, assume map[nnKey]bool, ro *ParserRoles, depth int) (bool, string) {
 	// the value itself (e.g. a loop variable) was tested against nil and the use sits on the non-nil edge
 	if nonNilAt(stripIface(v), use) {
 		return true, ""
 	}
 	for _, rt := range c.nodeOrigins().Roots(v) {
+		rt, _ = c.inductiveOperand(rt)
 		switch {
 		case rt.Kind == "alloc" && len(rt.Path) == 0:
 		case rt.Kind == "call" && len(rt.Path) == 0 && nonNilAt(rt.V, use):
